@@ -208,6 +208,7 @@ def check_meta(ctx):
                   "with %s left at None and a table as input the constructor uses `%s`, not the table's own %s: indexing, copy() and median_period() reset it" % (key, "; ".join(seen) or "?", key),
                   key="init:" + key)
     check_ingest(ctx, R)
+    check_meta_branch(ctx, R)
     check_setitem(ctx, R)
     gi = ctx.prog.func(SM, "JokerSamples.__getitem__", R)
     rets = [s for s in A.walk_local(gi) if isinstance(s, ast.Return)]
@@ -249,6 +250,33 @@ def check_setitem(ctx, R="C17-META"):
              (c.func.attr in ("add_column", "add_columns", "replace_column", "__setitem__") or any(k.arg == "copy" and A.const_value(k.value) is False for k in c.keywords))]
     ctx.check(R, alias[0] if alias else fn, "__setitem__ stores a copy of the value (tbl[key] = val)", bool(stores) and not alias,
               "`%s` can keep the caller's array as the column itself: two columns assigned from one array then change together" % (A.unparse(alias[0])[:60] if alias else "no tbl[key] = val store"), key="setitem:copy")
+
+
+def check_meta_branch(ctx, R):
+    init = ctx.prog.func(SM, "JokerSamples.__init__", R)
+    # the branch that takes t_ref / poly_trend / n_offsets from the input's metadata applies to tables AND rows (integer indexing, median_period, MAP_sample hand a Row)
+    okb = False
+    why = "no isinstance(samples, ...) branch that reads the input's metadata"
+    for s_ in A.walk_local(init):
+        if isinstance(s_, ast.If) and any(isinstance(c_, ast.Call) and A.last_attr(c_) == "pop" and c_.args and A.str_const(c_.args[0]) == "t_ref" for x in s_.body for c_ in A.calls_in(x)):
+            for c_ in [x for x in ast.walk(s_.test) if isinstance(x, ast.Call) and A.call_name(x) == "isinstance" and len(x.args) == 2]:
+                tys = {canon(e) for e in (c_.args[1].elts if isinstance(c_.args[1], ast.Tuple) else [c_.args[1]])}
+                okb = "Row" in tys and bool(tys & {"Table", "QTable"})
+                why = "metadata is taken over for %s only: a Row (integer index, median_period, MAP_sample) loses t_ref / poly_trend / n_offsets" % sorted(tys)
+    ctx.check(R, init, "metadata of tables and rows is taken over", okb, why, key="init:meta-branch")
+    # a missing epoch is stored as None (the header key is always present: appends compare it)
+    st = [s_ for s_ in A.walk_local(init) if isinstance(s_, ast.Assign) and canon(s_.targets[0]) == canon(parse("self.tbl.meta['t_ref']"))]
+    okt = len(st) == 1 and not any("t_ref" in t for t in A.term_strings(A.path_condition(st[0], init, inline=False)))
+    ctx.check(R, st[0] if st else init, "t_ref is stored in the table metadata on every path (None included)", okt,
+              "the t_ref entry is %s: samples without an epoch write no key, and a later append of samples WITH an epoch meets no conflict" % ("written only under %s" % sorted(A.term_strings(A.path_condition(st[0], init, inline=False))) if st else "never written"), key="init:t_ref-store")
+    for q_ in ("JokerSamples.read", "JokerSamples._read_tables"):
+        if q_ not in ctx.prog.module(SM).functions:
+            continue
+        f_ = ctx.prog.func(SM, q_, R)
+        # (re-building the mapping from ITSELF - re-keying, filtering - is what is excluded; installing the header read from the file is the normal path)
+        repl = [s_ for s_ in A.walk_local(f_) if isinstance(s_, ast.Assign) and any(isinstance(t_, ast.Attribute) and t_.attr == "meta" and canon(t_) in canon(s_.value) for t_ in s_.targets)]
+        ctx.check(R, repl[0] if repl else f_, "%s keeps the metadata keys as read" % q_, not repl,
+                  "`%s` rebuilds the whole metadata mapping: foreign header cards (an undefined T_REF) can turn into the object's own keys" % (A.unparse(repl[0])[:60] if repl else ""), key="read:meta:" + q_, nontrivial=False)
 
 
 def check_ingest(ctx, R):
@@ -295,7 +323,23 @@ def check_median(ctx):
     ctx.check(R, fn, "median_period = self[arg-median of P]", ok, why, key="median")
 
 
+def check_unpack_shape(ctx, R="C17-PACK"):
+    """unpack reads its array as (rows, parameters) - it never transposes / reshapes it on a guess (a square block would be read the other way round)"""
+    fn = ctx.prog.func(SM, "JokerSamples.unpack", R)
+    p0 = A.param_names(fn)[1] if len(A.param_names(fn)) > 1 else "packed_samples"
+    bad = []
+    for s_ in A.walk_local(fn):
+        if isinstance(s_, ast.Assign) and any(isinstance(t_, ast.Name) and t_.id == p0 for t_ in s_.targets):
+            v = A.strip_casts(s_.value)
+            if canon(v) != p0:
+                bad.append(s_)
+    # (reading a transposed VIEW to walk the columns is fine; what is excluded is re-binding the array itself to another arrangement)
+    ctx.check(R, bad[0] if bad else fn, "unpack keeps the (rows, parameters) layout it is given", not bad,
+              "`%s` re-arranges the packed array: rows and parameters can be exchanged" % (A.unparse(bad[0])[:60] if bad else ""), key="unpack:layout")
+
+
 def check_pack(ctx):
+    check_unpack_shape(ctx)
     R = "C17-PACK"
     ctx.rule(R, "pack iterates names once, strips column `name` in units.get(name, own unit), records that same unit under that name and stacks the columns in that order; "
                 "unpack pairs the i-th key of the unit table with column i of the packed array and attaches units[key] to it unchanged; extra kwargs reach the constructor "
